@@ -64,11 +64,10 @@ def _encoded(rows, enc):
     """the appended chunk as Candle objects, or - the same candle data - as dicts / lists (rows without a stamp stay Candle objects)"""
     if not enc or enc == "candle" or any(t[0] is None for t in rows):
         return cm.mk_candles(rows)
-    from .. import wire
-
+    stamps = [c.timestamp for c in cm.mk_candles(rows)]   # naive, or aware under `cm.aware`
     if enc == "dict":
-        return [{"open": o, "high": h, "low": l, "close": c, "volume": v, "timestamp": wire.secs_to_ts(ts)} for ts, o, h, l, c, v in rows]
-    return [[wire.secs_to_ts(ts), o, h, l, c, v] for ts, o, h, l, c, v in rows]
+        return [{"open": o, "high": h, "low": l, "close": c, "volume": v, "timestamp": st} for (ts, o, h, l, c, v), st in zip(rows, stamps)]
+    return [[st, o, h, l, c, v] for (ts, o, h, l, c, v), st in zip(rows, stamps)]
 
 
 def run_incremental(spec, stream, init, chunks, on_step=None, enc=None):
@@ -94,6 +93,11 @@ def run_batch(spec, stream):
 
 
 def c01_check(scn):
+    with cm.aware(scn.get("tzoff")):
+        return _c01_check(scn)
+
+
+def _c01_check(scn):
     try:
         b = snapshot(run_batch(scn["spec"], scn["stream"]).candles)
     except Exception as e:
@@ -134,6 +138,8 @@ def c01_case(rng, idx, params):
     stream, meta = gen.gen_stream(rng, n, price_style=gen.style_for(rng, spec["kind"]), step=step)
     (init, chunks), shape = gen.gen_schedule(rng, n)
     scn = {"spec": spec, "stream": stream, "init": init, "chunks": chunks}
+    if rng.random() < 0.12 and stream and stream[0][0] is not None:
+        scn["tzoff"] = rng.choice([330, 345, 60, -300, 765, 0, -210])   # aware stamps with a fixed offset (not a multiple of most timeframes)
     if rng.random() < 0.25:
         scn["enc"] = rng.choice(["dict", "list"])   # the appended chunks as dicts / lists: the same stream, so the same end state
     bad = c01_check(scn)
@@ -156,6 +162,11 @@ def c01_replay(w):
 
 
 def c02_check(scn):
+    with cm.aware(scn.get("tzoff")):
+        return _c02_check(scn)
+
+
+def _c02_check(scn):
     spec, stream = scn["spec"], scn["stream"]
     snaps = []
 
@@ -215,6 +226,8 @@ def c02_case(rng, idx, params):
     (init, chunks), shape = gen.gen_schedule(rng, n)
     cuts = sorted({rng.randint(0, n) for _ in range(3)}) if n else []
     scn = {"spec": spec, "stream": stream, "init": init, "chunks": chunks, "cuts": cuts}
+    if rng.random() < 0.15 and stream and stream[0][0] is not None:
+        scn["tzoff"] = rng.choice([330, 345, 60, -300, 765, 0, -210])   # aware stamps with a fixed offset (not a multiple of most timeframes)
     bad = c02_check(scn)
     viol = None
     if bad:
@@ -1009,3 +1022,62 @@ def c14_any_replay(w):  # noqa: F811
         bad = c14_converge_check({**copy.deepcopy(s), "program": [tuple(o) for o in s["program"]]})
         return {"fails": bad is not None, "detail": bad}
     return _c14_any_replay_prev(w)
+
+
+# ------------------------------------------------------------------------------------ C02: the same Candle objects fed to two indicators
+
+
+def c02_shared_check(scn):
+    """two standalone indicators are fed the SAME Candle objects (a user keeping one list of candles for several indicators): A on the
+    base timeframe holds those very objects; B on a collapsing timeframe works on copies.  Whatever B does, A's closed candles - stamps,
+    OHLCV, readings - stay what they were and what A alone shows."""
+    with cm.aware(scn.get("tzoff")):
+        a_spec, b_spec, stream = scn["a"], scn["b"], scn["stream"]
+        try:
+            alone = run_incremental(a_spec, stream, 0, scn["chunks"])
+            want = snapshot(alone.candles)
+        except Exception:
+            return None
+        a = specs.build_indicator(a_spec, [])
+        b = specs.build_indicator(b_spec, [])
+        snaps = []
+        i = 0
+        try:
+            for k in scn["chunks"]:
+                objs = cm.mk_candles(stream[i : i + k])
+                first, second = (a, b) if scn.get("order", "ab") == "ab" else (b, a)
+                first.append(objs)
+                second.append(objs)
+                i += k
+                snaps.append(snapshot(a.candles))
+        except Exception as e:
+            return {"clause": "shared-objects-raise", "observed": repr(e)[:200], "expected": "no exception (A alone runs clean)"}
+        for j in range(len(snaps)):
+            for later in snaps[j + 1:]:
+                if later[: len(snaps[j])] != snaps[j]:
+                    d = first_diff(snaps[j], later[: len(snaps[j])])
+                    return {"clause": "repaint-shared-objects", "observed": d, "expected": "A's candles of an earlier snapshot are a prefix of every later one"}
+        if snaps and snaps[-1] != want:
+            return {"clause": "shared-objects-vs-alone", "observed": first_diff(snaps[-1], want), "expected": "what A shows when it is fed alone"}
+    return None
+
+
+def c02_shared_case(rng, idx, params):
+    a_spec = specs.gen_spec(rng, ["SMA", "EMA", "RSI", "ATR", "OBV", "MACD", "HLA", "TR"])
+    b_spec = dict(specs.gen_spec(rng, ["SMA", "EMA", "WMA", "ATR"]), tf=rng.choice(["T2", "T5", "T3"]), fill=rng.random() < 0.3)
+    if rng.random() < 0.2:
+        b_spec["ha"] = True
+    n = rng.randint(4, params.get("size", 40))
+    stream, meta = gen.gen_stream(rng, n, ts_style=rng.choice(["regular", "regular", "gaps"]), step=60)
+    (init, chunks), shape = gen.gen_schedule(rng, n, shape=rng.choice(["singles", "few", "random"]))
+    chunks = ([init] if init else []) + list(chunks)
+    scn = {"check": "c02.shared", "a": a_spec, "b": b_spec, "stream": stream, "chunks": chunks, "order": rng.choice(["ab", "ba"])}
+    bad = c02_shared_check(scn)
+    viol = {"scenario": scn, **bad, "signature": f"C02:shared-objects:{bad['clause']}"} if bad else None
+    meta.update({"kind": kind_of(a_spec), "schedule": shape, "shared": True})
+    return {"nontrivial": len(chunks) >= 2, "key": hash(str(scn)), "violation": viol, "meta": meta, "sample": None}
+
+
+def c02_shared_replay(w):
+    bad = c02_shared_check(w["scenario"])
+    return {"fails": bad is not None, "detail": bad}
